@@ -16,3 +16,4 @@ for d in seeded/*/; do
   if echo "$out" | grep -q "^VIOLATION"; then echo "$id $prop detected [$rules]"; else echo "$id $prop MISSED"; fi
   git -C /repo checkout -- .
 done
+git -C /verif checkout -- evidence  # evidence written while a seeded change was applied must not be committed
